@@ -64,6 +64,7 @@ func runC07(c *Ctx) {
 		return
 	}
 	c.Analysed(fnName(subscribe))
+	c.Borrow("C08", map[string]string{"C08.timer": "C07.timer"}, "'everything for authorised targets is still delivered': a response the ACL filters out must leave the send timer disarmed, or the idle stream is ended by a timeout although nothing was being sent")
 	c.Rule("C07.unauth", "ACL configured and NewRPCACL fails => every path of Subscribe returns status Unauthenticated and performs no Recv, Send, go, registration or Insert; NewRPCACL succeeds => the ACL stored in the stream client is its result; no ACL configured => the stub")
 	c.Rule("C07.single", "target != \"*\" and Check(target) false => every path returns PermissionDenied with no go / registration / Send / Insert; every path that starts a goroutine for a single target contains an earlier Check of that target on the RPC's ACL")
 	c.Rule("C07.send-guard", "every invoke of the gRPC stream's Send/SendMsg in non-test code of package subscribe is (a) data-free: the argument is a package variable initialised once to a SyncResponse, or (b) guarded: on every path to the Send, the response's update prefix is nil or RPCACL.Check(prefix.GetTarget()) of that same response returned true on the stream client's ACL")
